@@ -327,14 +327,19 @@ class JSONPointer:
         """Return _True_ if this pointer points to a child of _other_."""
         return (
             len(other.parts) < len(self.parts)
-            and self.parts[: len(other.parts)] == other.parts
+            and self._tokens()[: len(other.parts)] == other._tokens()
         )
 
+    def _tokens(self) -> Tuple[str, ...]:
+        # Reference tokens as strings. An index and its decimal spelling are
+        # the same RFC 6901 reference token, however the pointer was built.
+        return tuple(str(p) for p in self.parts)
+
     def __eq__(self, other: object) -> bool:
-        return isinstance(other, JSONPointer) and self.parts == other.parts
+        return isinstance(other, JSONPointer) and self._tokens() == other._tokens()
 
     def __hash__(self) -> int:
-        return hash(self.parts)
+        return hash(self._tokens())
 
     def __repr__(self) -> str:
         return f"JSONPointer({self._s!r})"
